@@ -86,22 +86,38 @@ mod params_builder {
 
 		/// Insert a named value (key, value) pair into the builder.
 		/// The _name_ and _value_ are delimited by the `:` token.
+		///
+		/// If the serialization fails the builder is left as it was before the call.
 		pub(crate) fn insert_named<P: Serialize>(&mut self, name: &str, value: P) -> Result<(), serde_json::Error> {
+			let len = self.bytes.len();
 			self.maybe_initialize();
 
-			serde_json::to_writer(&mut self.bytes, name)?;
-			self.bytes.push(b':');
-			serde_json::to_writer(&mut self.bytes, &value)?;
+			let res = serde_json::to_writer(&mut self.bytes, name).and_then(|_| {
+				self.bytes.push(b':');
+				serde_json::to_writer(&mut self.bytes, &value)
+			});
+			if let Err(err) = res {
+				// A failing `Serialize` impl may already have written a part of its output.
+				self.bytes.truncate(len);
+				return Err(err);
+			}
 			self.bytes.push(b',');
 
 			Ok(())
 		}
 
 		/// Insert a plain value into the builder.
+		///
+		/// If the serialization fails the builder is left as it was before the call.
 		pub(crate) fn insert<P: Serialize>(&mut self, value: P) -> Result<(), serde_json::Error> {
+			let len = self.bytes.len();
 			self.maybe_initialize();
 
-			serde_json::to_writer(&mut self.bytes, &value)?;
+			if let Err(err) = serde_json::to_writer(&mut self.bytes, &value) {
+				// A failing `Serialize` impl may already have written a part of its output.
+				self.bytes.truncate(len);
+				return Err(err);
+			}
 			self.bytes.push(b',');
 
 			Ok(())
